@@ -38,7 +38,8 @@ ir = {"kind": "inherit"|"modules", "templates": {name: [node, ...] | {"broken": 
 expressions  ["caller"]  (``caller()`` inside a macro invoked by a call block)
              ["c", const] ["n", name] ["cat", e, e] ["cond", test, e, e] ["call", name, [e..]] ["attr", name, attr]
              ["mcall", name, attr, [e..]] ["super", depth] ["self", block] ["loopidx"] ["defd", e] ["not", e]
-statements   ["text", s] ["comment", s] ["out", e] ["probe", [names]] ["set", name, e] ["setblock", name, body]
+statements   ["setmulti", [names], [e..]]  (``{% set a, _b = e1, e2 %}``)
+             ["text", s] ["comment", s] ["out", e] ["probe", [names]] ["set", name, e] ["setblock", name, body]
              ["if", e, body, else_body] ["for", var, [const..], body] ["with", name, e, body]
              ["macro", name, [params], body] ["block", name, {"scoped":b, "required":b}, body]
              ["extends", e] ["include", target, {"ctx": None|True|False, "im": bool}]
@@ -182,6 +183,8 @@ def static_stores(body):
         k = n[0]
         if k in ("set", "setblock", "macro"):
             out.add(n[1])
+        elif k == "setmulti":
+            out.update(n[1])
         elif k == "import":
             out.add(n[2])
         elif k == "from":
@@ -542,6 +545,15 @@ class Interp:
             self.emit(frame, out, "".join(parts))
         elif k == "set":
             self.assign(frame, n[1], self.ev(n[2], frame))
+        elif k == "setmulti":
+            values = [self.ev(e, frame) for e in n[2]]
+            if len(values) != len(n[1]):
+                raise ValueError("setmulti arity")
+            self.events.add("multi_target_assignment")
+            if any(x.startswith("_") for x in n[1]) and not all(x.startswith("_") for x in n[1]):
+                self.events.add("multi_target_mixed_private")
+            for name, v in zip(n[1], values):
+                self.assign(frame, name, v)
         elif k == "setblock":
             sub = Frame(frame.ctx, frame.tname, scopes=frame.scopes + [Scope({}, static_stores(n[2]))], block=frame.block,
                         ok=frame.ok, own=frame.own)
